@@ -863,35 +863,35 @@ func msetCorpus(c *Ctx) [][]byte {
 	return [][]byte{
 		nil,
 		it(tid(1000), msg(8, 1)),
-		it(msg(8, 1), tid(1000)),                  // message first
-		it(tid(1000), msg(8, 1), msg(16, 2)),      // two chunks
-		it(msg(8, 1), tid(1000), msg(16, 2)),      // chunk, id, chunk
-		it(tid(1000), tid(1001), msg(8, 1)),       // last type_id wins
-		it(tid(1000)),                             // no message
-		it(msg(8, 1)),                             // no type_id: dropped
-		it(),                                      // empty item
-		it(tid(0), msg()),                         // invalid type_id 0
-		it(tid(1<<31), msg()),                     // invalid type_id > MaxInt32
-		it(tid(1<<31-2), msg(8, 1)),               // largest extension number (verbatim)
-		it(tid(1<<31-1), msg(8, 1)),               // largest type id, outside the extension range
-		it(tid(5000), msg(8, 1)),                  // unknown id
-		it(tid(5000), padmsg(8, 1)),               // unknown id, non-minimal length (FJ1)
-		it(tid(5000), padmsg(8, 1), msg(16, 2)),   // merged: prefix re-encoded on both paths
-		it(tid(4), padmsg(8, 1)),                  // verbatim id
-		it(tid(4), msg(0xff)),                     // known id, non-message payload
-		it(tid(5000), msg(0xff)),                  // unknown id, non-message payload: kept
-		it(tid(1), msg(8, 1)),                     // id outside the extension range
+		it(msg(8, 1), tid(1000)),                            // message first
+		it(tid(1000), msg(8, 1), msg(16, 2)),                // two chunks
+		it(msg(8, 1), tid(1000), msg(16, 2)),                // chunk, id, chunk
+		it(tid(1000), tid(1001), msg(8, 1)),                 // last type_id wins
+		it(tid(1000)),                                       // no message
+		it(msg(8, 1)),                                       // no type_id: dropped
+		it(),                                                // empty item
+		it(tid(0), msg()),                                   // invalid type_id 0
+		it(tid(1<<31), msg()),                               // invalid type_id > MaxInt32
+		it(tid(1<<31-2), msg(8, 1)),                         // largest extension number (verbatim)
+		it(tid(1<<31-1), msg(8, 1)),                         // largest type id, outside the extension range
+		it(tid(5000), msg(8, 1)),                            // unknown id
+		it(tid(5000), padmsg(8, 1)),                         // unknown id, non-minimal length (FJ1)
+		it(tid(5000), padmsg(8, 1), msg(16, 2)),             // merged: prefix re-encoded on both paths
+		it(tid(4), padmsg(8, 1)),                            // verbatim id
+		it(tid(4), msg(0xff)),                               // known id, non-message payload
+		it(tid(5000), msg(0xff)),                            // unknown id, non-message payload: kept
+		it(tid(1), msg(8, 1)),                               // id outside the extension range
 		it(tid(1000), msg(8, 1)), it(tid(1000), msg(16, 2)), // (two corpus entries)
-		append(it(tid(1000), msg(8, 1)), it(tid(1000), msg(16, 2))...), // same id twice: merged
+		append(it(tid(1000), msg(8, 1)), it(tid(1000), msg(16, 2))...),                                                                // same id twice: merged
 		append(protowire.AppendBytes(protowire.AppendTag(nil, 1000, protowire.BytesType), []byte{8, 1}), it(tid(1001), msg(8, 2))...), // ordinary extension encoding: skipped
-		it(tid(1000), msg(8, 1))[:5],              // truncated
+		it(tid(1000), msg(8, 1))[:5], // truncated
 		append(protowire.AppendTag(nil, 1, protowire.StartGroupType), protowire.AppendTag(nil, 2, protowire.EndGroupType)...), // wrong end group
 		protowire.AppendTag(nil, 1, protowire.EndGroupType),                                                                   // stray end group
-		it(protowire.AppendVarint(protowire.AppendTag(nil, 3, protowire.VarintType), 7), tid(4), msg()),                        // message with varint type: skipped
-		it(protowire.AppendFixed32(protowire.AppendTag(nil, 2, protowire.Fixed32Type), 7), tid(4), msg()),                      // type_id with fixed32 type: skipped
-		it(it(tid(9)), tid(4), msg()),             // nested group 1 inside an item: skipped as a group
-		it(tid(1002), msg()),                      // ExtRequired without its required field
-		it(tid(1<<29), msg(8, 1)),                 // ExtLargeNumber
+		it(protowire.AppendVarint(protowire.AppendTag(nil, 3, protowire.VarintType), 7), tid(4), msg()),                       // message with varint type: skipped
+		it(protowire.AppendFixed32(protowire.AppendTag(nil, 2, protowire.Fixed32Type), 7), tid(4), msg()),                     // type_id with fixed32 type: skipped
+		it(it(tid(9)), tid(4), msg()), // nested group 1 inside an item: skipped as a group
+		it(tid(1002), msg()),          // ExtRequired without its required field
+		it(tid(1<<29), msg(8, 1)),     // ExtLargeNumber
 	}
 }
 
